@@ -9,46 +9,82 @@
 (*     match: the bytes placed in the buffer equal the stream at the read   *)
 (*     position (computed by the harness, which knows what was written)     *)
 (*  {"op":"end","written":w,"read":r}                                       *)
+(* Timed-out writes of the TCP variant (the record stays pending inside the *)
+(* machine, RecordIO's CanStartRecord / FlushStep):                         *)
+(*  {"op":"write",...,"err":"timeout","n":n}   n plaintext bytes reported   *)
+(*  {"op":"rewrite","len":L,"n":n,"err":e}     a Write while a record is    *)
+(*                                             pending: must be refused     *)
+(*  {"op":"flush","n":n,"err":e}               Flush resumes the record     *)
 (***************************************************************************)
 EXTENDS RecordIO, Json
 
 CONSTANT TraceFile
 Trace == ndJsonDeserialize(TraceFile)
 
-VARIABLES l, wr, rd
+VARIABLES l, wr, rd,
+          pend,    \* plaintext bytes of the pending record not yet reported
+          pr       \* a record is pending in the machine (some of its bytes, possibly
+                   \* only MAC bytes, are not on the wire yet)
 Ev == Trace[l]
 Is(o) == l <= Len(Trace) /\ Trace[l].op = o
 Adv == l' = l + 1
 
-TNew == Is("new") /\ Adv /\ wr' = 0 /\ rd' = 0
+TNew == Is("new") /\ Adv /\ wr' = 0 /\ rd' = 0 /\ pend' = 0 /\ pr' = FALSE
 
 \* a write is accepted completely or rejected with an error; never truncated.
 \* The gRPC variant rejects more than MAXREC bytes; the TCP variant chunks.
 TWrite ==
-    /\ Is("write") /\ Adv /\ UNCHANGED rd
+    /\ Is("write") /\ Adv /\ UNCHANGED rd /\ ~pr
     /\ IF Ev.err = ""
        THEN /\ Ev.n = Ev.len
             /\ (Ev.conn = "grpc" => Ev.len <= MAXREC)
-            /\ wr' = wr + Ev.len
+            /\ wr' = wr + Ev.len /\ pend' = 0 /\ pr' = FALSE
+       ELSE IF Ev.err = "timeout"
+       THEN \* the deadline expired inside a record: n bytes are reported, the
+            \* rest of that record (chunk) stays pending in the machine
+            /\ Ev.conn = "tcp" /\ Ev.n >= 0 /\ Ev.n <= Ev.len
+            /\ wr' = wr + Ev.n /\ pr' = TRUE
+            \* at a chunk boundary the observer cannot tell whether only the MAC
+            \* of the finished chunk is missing (nothing more to report) or the
+            \* next chunk's record was started (all of it still to report)
+            /\ pend' \in (IF Ev.n = Ev.len THEN {0}
+                          ELSE IF Ev.n > 0 /\ Ev.n % MAXREC = 0
+                          THEN {0, Min(Ev.len - Ev.n, MAXREC)}
+                          ELSE {Min(Ev.len, ((Ev.n \div MAXREC) + 1) * MAXREC) - Ev.n})
        ELSE /\ Ev.n = 0
             /\ Ev.conn = "grpc" /\ Ev.len > MAXREC /\ Ev.err = "toolong"
-            /\ wr' = wr
+            /\ wr' = wr /\ pend' = 0 /\ pr' = FALSE
+
+\* no new record while one is pending (CanStartRecord): the Write is refused
+\* and changes nothing
+TRewrite ==
+    /\ Is("rewrite") /\ Adv /\ UNCHANGED <<wr, rd, pend, pr>>
+    /\ pr /\ Ev.err = "notflushed" /\ Ev.n = 0
+
+\* Flush resumes the pending record: it reports plaintext bytes of it, all
+\* that were left if it returns without error
+TFlush ==
+    /\ Is("flush") /\ Adv /\ UNCHANGED rd
+    /\ Ev.n >= 0 /\ Ev.n <= pend
+    /\ Ev.err = "" => Ev.n = pend
+    /\ wr' = wr + Ev.n /\ pend' = pend - Ev.n
+    /\ pr' = (Ev.err # "")
 
 \* every Read: no more bytes than the buffer holds, the next bytes of the
 \* stream, nothing beyond what was written
 TRead ==
-    /\ Is("read") /\ Adv /\ UNCHANGED wr
+    /\ Is("read") /\ Adv /\ UNCHANGED <<wr, pend, pr>>
     /\ Ev.err = ""
     /\ ReadOK([n |-> Ev.n, from |-> rd], Ev.buf, rd, wr - rd)
     /\ Ev.n >= 0 /\ Ev.match = 1
     /\ Ev.avail = wr - rd
     /\ rd' = rd + Ev.n
 
-TEnd == /\ Is("end") /\ Adv /\ UNCHANGED <<wr, rd>>
-        /\ Ev.written = wr /\ Ev.read = rd /\ rd = wr
+TEnd == /\ Is("end") /\ Adv /\ UNCHANGED <<wr, rd, pend, pr>>
+        /\ Ev.written = wr /\ Ev.read = rd /\ rd = wr /\ pend = 0 /\ ~pr
 
-TraceNext == TNew \/ TWrite \/ TRead \/ TEnd
-TraceSpec == l = 1 /\ wr = 0 /\ rd = 0 /\ [][TraceNext]_<<l, wr, rd>>
+TraceNext == TNew \/ TWrite \/ TRewrite \/ TFlush \/ TRead \/ TEnd
+TraceSpec == l = 1 /\ wr = 0 /\ rd = 0 /\ pend = 0 /\ pr = FALSE /\ [][TraceNext]_<<l, wr, rd, pend, pr>>
 TraceAccepted ==
     LET d == TLCGet("stats").diameter IN
     IF d - 1 = Len(Trace) THEN TRUE
